@@ -424,7 +424,9 @@ pid_t __wrap_waitpid(pid_t pid, int *status, int options) {
 int __wrap_kill(pid_t pid, int sig) {
     if (!sim_cfg.active) return __real_kill(pid, sig);
     if (sim_cfg.monitor) {
-        sim_mon_attempt("subprocess", "kill", "");
+        /* signalling a process the program already owns is recorded under its own name: the
+         * :subprocess capability is about creating processes (no core function checks it here) */
+        sim_mon_attempt("proc-signal", "kill", "");
         errno = EACCES;
         return -1;
     }
